@@ -356,6 +356,8 @@ def invalidate(draw, p, r, op):
         elif p.udts[t["type"]].get("string") is not None:
             r["value"] = draw(st.sampled_from([5, None, "Āx"]))
         else:
+            if not _visible_members(p, t["type"]):
+                return None   # a structure without visible members accepts any dict
             r["value"] = draw(st.sampled_from([5, {"nx": 1}]))
     elif kind == "short-list":
         r["value"] = r["value"][: r["count"] - 1]
